@@ -12,6 +12,8 @@ R11.3 field order and the set of data sets read come from the frame's channel ma
       never from the source's own key order; the mapping is recomputed from the frame's channels on every use.
 R11.4 inline data and write(data=dict) are merged into one dict wrapper (write-time data overriding); non-dict data
       together with inline data raises; inline arrays are stored exactly as given under the channel's data set name.
+R11.5 who-may-use: the raw source of a wrapper is read only inside the wrapper classes (everything else goes through the
+      window-aware accessors).
 Not decided: byte identity of whole files across source kinds.
 """
 
@@ -39,6 +41,7 @@ def run(chk):
     chk.guard(r11_2_dispatch, chk)
     chk.guard(r11_3_mapping, chk)
     chk.guard(r11_4_inline, chk)
+    chk.guard(r11_5_raw_source_private, chk)
 
 
 def _plus(a, b):
@@ -93,6 +96,16 @@ def r11_1_window(chk):
                             f"slice(from_idx + start, from_idx + stop): the row window is ignored or misapplied on "
                             f"this path", f.where)
         n_row_reads += reads
+        # what a load_chunk may hand back: the freshly allocated chunk, the source rows addressed through the window, or
+        # the result of delegating to the base implementation - nothing that was sliced or cached elsewhere
+        from ..terms import return_alternatives
+        for conds, alt in return_alternatives(s):
+            fresh = is_call(alt, ("zeros", "empty"))
+            windowed = alt[0] == "sub" and alt[1] == DS and _is_window_slice(te.expand_calls(alt[2], s, depth=2))
+            deleg = is_call(alt, "load_chunk") and alt[1][0] == "attr" and is_call(alt[1][1], "super")
+            chk.require(fresh or windowed or deleg, "R11.1", f"chunk-is-fresh-or-windowed-source-rows:{f.short}",
+                        f"{f.short} can return `{pp(alt)[:80]}`: rows that are not the source addressed with "
+                        f"slice(from_idx + start, from_idx + stop)", f.where)
         delegating = any(is_call(c, "load_chunk") and c[1][0] == "attr" and is_call(c[1][1], "super")
                          for t in _all_terms(s) for c in calls_in(t))
         chk.require(bool(reads) or delegating, "R11.1", f"reads-or-delegates:{f.short}", "load_chunk neither reads the "
@@ -125,6 +138,35 @@ def r11_1_window(chk):
     chk.require(start_checked and empty_checked, "R11.1", "window-validated",
                 "an empty or out-of-range window is accepted (no raise under `from_idx >= total rows` / "
                 "`n_rows < 1`)", init.func.where)
+
+
+def r11_5_raw_source_private(chk):
+    """Who may touch the raw source: only the wrapper classes themselves (they apply the row window).  A read of
+    `<wrapper>.data_source` / `<other>._data_source` anywhere else bypasses from_idx / to_idx."""
+    import ast
+    from ..index import walk_local
+    ix = chk.ix
+    base = ix.get_class("SourceDataWrapper")
+    wrappers = {base} | set(ix.subclasses(base))
+    n = 0
+    for f in ix.functions.values():
+        owner = f
+        while owner.cls is None and owner.parent is not None:
+            owner = owner.parent
+        for x in walk_local(f.node):
+            if not isinstance(x, ast.Attribute) or not isinstance(x.ctx, ast.Load):
+                continue
+            if x.attr == "data_source" and not (owner.cls in wrappers):
+                n += 1
+                chk.fail("R11.5", f"raw-source-read:{f.short}", f"{f.short} reads the raw data source of a wrapper "
+                         f"(`{ast.unparse(x)}`): the row window from_idx / to_idx is bypassed", f"{f.module.relpath}:{x.lineno}")
+            if x.attr == "_data_source" and not (isinstance(x.value, ast.Name) and x.value.id == "self"):
+                n += 1
+                chk.fail("R11.5", f"raw-source-read:{f.short}", f"{f.short} reaches into another object's _data_source "
+                         f"(`{ast.unparse(x)}`)", f"{f.module.relpath}:{x.lineno}")
+    if not n:
+        chk.ok("R11.5", "raw-source-only-inside-wrappers", "no read of a wrapper's raw source outside the wrapper classes",
+               base.where, nontrivial=False)
 
 
 def r11_2_dispatch(chk):
